@@ -1,6 +1,7 @@
 import SkyllhModel.Proto
 import SkyllhModel.Model.Rng
 import SkyllhModel.Model.RngDeep
+import SkyllhModel.Model.RngR7
 open Proto Rng
 
 /-  requests (floats as IEEE bit patterns, ints in decimal, lists comma separated, `-` = empty):
@@ -21,6 +22,11 @@ open Proto Rng
       extfile <start> <n> <ncpu> <seed> <pos> <mseed:mpos|-> <overwrite 0|1> <sig_kwargs -|e|m:x> <file> <grid1> <grid2> <maxEv> <thr> <maxRep> <npar> <lo> <hi> <tables>
           grid = s:<m> | r2:<a>,<b> | r3:<a>,<b>,<step> | a:<list>
           -> rows:<…> file:<labels of the new file> rss:<seed>:<pos>  |  ERR:<index|value|runtime> rss:<…>
+      pseudo <mode p|s|l:<len>|e:<len>> <nds> <mean> <maxEv> <keys> <seed> <pos> <tables>
+          generate_pseudo_data (p) / generate_signal_events (s: no lists, l: n_events_list of <len> zeros, e: events_list of <len> None)
+          with the scripted multi-dataset generators -> nsig:<n> nev:<list> ev:<floats|N|E>/… words:<w>  | ERR:value | ERR:index
+      rssobj <assignAfter 0|1> <hi> <arg> <step/step/…|->   arg = n (None) | b (int() refuses) | i:<int>;  step = r,<arg> | d,<words> | x,b (rss.random = not a RandomState) | x,<seed>,<pos> (rss.random = RandomState(seed) advanced)
+          RandomStateService(arg) then the history -> ctor:<ok|ERR:type|ERR:value> steps:<ok|ERR:..>=<label|n>,… seed:<label|n> gen:<s:seed:pos|e:tag:pos>
       trials <n> <ncpu> <seed> <pos> <mseed:mpos|-|same> <maxEv> <nSig> <thr> <maxRep> <npar> <lo> <hi> <tables>
           tables = seed=w,w,…;seed=w,…   (32-bit words of numpy's MT19937 streams, supplied by the harness)
           (`same` = the data service itself is passed as minimizer_rss: reference 0 twice)
@@ -152,6 +158,55 @@ def pTOp (s : String) : Option (TOp (List (Float × Float)) (Option Float × Opt
 
 def pForm (s : String) : ArgForm := if s == "na" then .notArray else .array s.toNat!
 
+def pSeedArg (t : String) : RngR7.SeedArg :=
+  if t == "n" then .none else if t == "b" then .bad else .int (t.drop 2).toString.toInt!
+
+def fRErr : RngR7.RErr → String
+  | .typeError => "ERR:type"
+  | .valueError => "ERR:value"
+
+def fLabel : Option Int → String
+  | some v => toString v
+  | none => "n"
+
+def fGenSt : RngR7.GenSt → String
+  | .seeded s p => s!"s:{s}:{p}"
+  | .entropy t p => s!"e:{t}:{p}"
+
+def pROp (t : String) : Option RngR7.ROpX :=
+  match t.splitOn "," with
+  | ["r", a] => some (.op (.reseed (pSeedArg a)))
+  | ["d", k] => some (.op (.draw (pN k)))
+  | ["x", "b"] => some (.setRandom none)
+  | ["x", sd, pos] => some (.setRandom (some (.seeded (pN sd) (pN pos))))
+  | _ => none
+
+/-- scripted background generator of the multi-dataset fixture: per dataset one uniform -> 1 + ⌊u·maxEv⌋ events -/
+def r7Bkg (nds maxEv : Nat) (view : Nat → Nat) : (List Nat × List (List Float)) × Nat :=
+  let st := (List.range nds).foldl (fun (st : Nat × List Nat × List (List Float)) _ =>
+    let k := st.1
+    let n := 1 + (dbl view k * maxEv.toFloat).floor.toUInt64.toNat
+    (k + 1 + n, st.2.1 ++ [n], st.2.2 ++ [(List.range n).map (fun j => dbl view (k + 1 + j))])) (0, [], [])
+  ((st.2.1, st.2.2), 2 * st.1)
+
+/-- scripted signal generator: the j-th key gets (mean + j) % 3 (+1 for the first) uniforms -/
+def r7Sig (keys : List Nat) (mean : Nat) (view : Nat → Nat) : (Nat × List (Nat × List Float)) × Nat :=
+  let st := (keys.zip (List.range keys.length)).foldl (fun (st : Nat × List (Nat × List Float)) kj =>
+    let n := (mean + kj.2) % 3 + (if kj.2 == 0 then 1 else 0)
+    (st.1 + n, st.2 ++ [(kj.1, (List.range n).map (fun i => dbl view (st.1 + i)))])) (0, [])
+  ((st.1, st.2), 2 * st.1)
+
+def fPErr : RngR7.PErr → String
+  | .valueError => "ERR:value"
+  | .indexError => "ERR:index"
+
+def fPseudo (o : RngR7.PseudoOut Float) : String :=
+  let evs := o.ev.map (fun e => match e with
+    | none => "N"
+    | some [] => "E"
+    | some l => fListD fF l)
+  s!"nsig:{o.nSig} nev:{fListD toString o.nEv} ev:{String.intercalate "/" evs} words:{o.words}"
+
 def answer (line : String) : String :=
   match tokens line with
   | ["choice", r, its, ps, us] =>
@@ -255,6 +310,31 @@ def answer (line : String) : String :=
         | none => "ERR"))
       let fin := (List.range sv.length).map (fun k => fStream (r.1.world k))
       s!"times:{String.intercalate "/" outs} svcs:{String.intercalate "," fin}"
+  | ["rssobj", aa, hi, arg, steps] =>
+      match RngR7.mk (pN hi) 0 (pSeedArg arg) with
+      | .error e => s!"ctor:{fRErr e} steps:- seed:- gen:-"
+      | .ok r =>
+        let ops := if steps == "-" then [] else (steps.splitOn "/").filterMap pROp
+        let (outs, r') := RngR7.runOpsX (pB aa) (pN hi) 1 r ops
+        let os := outs.map (fun o => (match o.1 with
+          | .ok _ => "ok"
+          | .error e => fRErr e) ++ "=" ++ fLabel o.2)
+        s!"ctor:ok steps:{fListD id os} seed:{fLabel r'.seed} gen:{fGenSt r'.gen}"
+  | ["pseudo", mode, nds, mean, maxEv, keys, seed, pos, tabs] =>
+      let gen := genOf (parseTables tabs)
+      let view := fun i => gen (pN seed) (pN pos + i)
+      let sig := fun (m : Nat) v => r7Sig (pList pN keys) m v
+      let r := if mode == "p" then
+          RngR7.generatePseudoData (pN nds) (· == 0) (r7Bkg (pN nds) (pN maxEv)) sig (pN mean) view
+        else if mode == "s" then
+          RngR7.generateSignalEvents (pN nds) (· == 0) sig (pN mean) none none view
+        else if mode.startsWith "l:" then
+          RngR7.generateSignalEvents (pN nds) (· == 0) sig (pN mean) (some (List.replicate (pN (mode.drop 2).toString) 0)) none view
+        else
+          RngR7.generateSignalEvents (pN nds) (· == 0) sig (pN mean) none (some (List.replicate (pN (mode.drop 2).toString) none)) view
+      match r with
+      | .ok o => fPseudo o
+      | .error e => fPErr e
   | _ => "bad-op"
 
 def main : IO Unit := do loop (← IO.getStdin) answer
